@@ -59,6 +59,14 @@ type FuncContract struct {
 	NaNParams     []string
 	Nullable      []string
 	Tables        []string
+	Kernel        bool
+	States        []string
+	HasStates     bool
+	Normalised    []string
+	CausalByEnsures bool
+	StructuralOnly  bool
+	Derived         []string
+	Approx          []string
 }
 
 type SpecFunc struct {
@@ -280,6 +288,27 @@ func parseFuncDirective(fc *FuncContract, word, rest, file string, line int) {
 		fc.PanicsAllowed = strings.TrimSpace(rest) == "allowed"
 	case "noalias":
 		fc.NoAlias = true
+	case "structural":
+		fc.StructuralOnly = strings.TrimSpace(rest) == "only"
+	case "kernel":
+		fc.Kernel = true
+		if strings.TrimSpace(rest) == "causal-by-ensures" {
+			fc.CausalByEnsures = true
+		}
+	case "states":
+		fc.HasStates = true
+		if strings.TrimSpace(rest) != "none" {
+			fc.States = append(fc.States, splitNames(rest)...)
+		}
+	case "approx":
+		// approx NAME: carried only as a starting guess of an iterative solver
+		fc.Approx = append(fc.Approx, splitNames(rest)...)
+	case "derived":
+		// derived NAME = expr : a loop-carried variable that is a function of the
+		// carried states (proved as an invariant of the time loop)
+		fc.Derived = append(fc.Derived, rest)
+	case "carries-normalised":
+		fc.Normalised = append(fc.Normalised, splitNames(rest)...)
 	case "tables":
 		fc.Tables = append(fc.Tables, splitNames(rest)...)
 	case "nullable":
